@@ -30,7 +30,7 @@ static int nalpha;
 static int o_get, o_snap, o_iter, o_cursor, o_files, o_layout;
 static lay_stats_t lay_stats;
 static uint64_t n_reopen_layout_checks;
-static int cursor_len = 2, cursor_cap = 40;
+static int cursor_len = 2, cursor_cap = 40, force_full;
 static const char *DB = "/vfs/db";
 
 /* statistics */
@@ -504,7 +504,9 @@ body(void *arg) {
       char e[500];
       ldb_iter_t *it = ldb_iterator(h.db, NULL);
       /* each layout signature gets its full-length walk in exactly one shard */
-      if (!vs_has(&cursor_seen, x->layout) && (int)cursor_seen.n < cursor_cap &&
+      if (force_full) {
+        full = 1;   /* replaying a reported case: the walk that found it was a full one */
+      } else if (!vs_has(&cursor_seen, x->layout) && (int)cursor_seen.n < cursor_cap &&
           (int)(vh_mix(x->layout, 99) % (uint64_t)drv.nshards) == drv.shard && !stop_now) {
         vs_add(&cursor_seen, x->layout);
         full = 1;
@@ -552,7 +554,9 @@ report(const exec_t *x) {
   exec_t y;
   char cfgtxt[300];
   /* replay once before reporting */
+  force_full = 1;
   run_exec(&y, x->h, 1);
+  force_full = 0;
   if (y.ok)
     vh_die("violation did not reproduce on replay: %s", x->err);
   vb_init(&b);
@@ -790,6 +794,7 @@ main(int argc, char **argv) {
       vh_die("bad history in replay: %s", hb);
     npfx = n;
     h.n = 0;
+    force_full = 1;
     run_exec(&x, &h, 1);
     if (!x.ok)
       report(&x);
